@@ -72,15 +72,15 @@ func hostileValue(r *rand.Rand, allowMarker bool) []byte {
 }
 
 type seqCtx struct {
-	c      *harness.Case
-	n      *harness.Node
-	m      *harness.Model
-	keys   []string
-	marker bool // the history contains the value "tombstone"
-	hist   []string
-	checks []uint64 // checkpoint revisions
+	c                         *harness.Case
+	n                         *harness.Node
+	m                         *harness.Model
+	keys                      []string
+	marker                    bool // the history contains the value "tombstone"
+	hist                      []string
+	checks                    []uint64 // checkpoint revisions
 	nDel, nMulti, nFail, nCut int
-	outcomes []byte
+	outcomes                  []byte
 }
 
 // genOp draws the next write request: a mix of correct, stale, zero and future expectations.
